@@ -111,6 +111,12 @@ def run_instance(inst):
                 b, p = fp.graphutils.max_bottleneck_path(G, "flow")
                 ev["ret"] = NONE if b is None else (int(b) if float(b).is_integer() else NONE)
                 ev["paths"] = [list(p)] if p is not None else []
+            elif name == "max_occurrence":
+                # op: ["max_occurrence", seq (list of edges), paths (lists of nodes), lengths ([[u, v, len], ...] or [])]
+                seq = [tuple(e) for e in op[1]]
+                lens = {(e[0], e[1]): e[2] for e in op[3]}
+                ev["ret"] = int(fp.graphutils.max_occurrence(seq, [list(p) for p in op[2]], edge_lengths=lens) if lens
+                                else fp.graphutils.max_occurrence(seq, [list(p) for p in op[2]]))
             else:
                 ev["exc"] = "UnknownOp"
         except BaseException as e:
